@@ -81,6 +81,11 @@ func validateJSONPatches(patches []byte) error {
 		if err := validateJSONPointer(from); err != nil {
 			return err
 		}
+
+		// RFC 6902: the 'from' location must not be a proper prefix of the 'path' location
+		if strings.HasPrefix(path, from+"/") {
+			return fmt.Errorf("%s: cannot move or copy a location into one of its children", patch.JSONPatch)
+		}
 	}
 
 	return nil
